@@ -199,7 +199,9 @@ def run(ctx):
             ctx.bad(R_ciph, "decrypt_dword|round", dw.where, "found   %s\n         reference %s" % (render(s.ret) if s.ret else None, render(want)), "key recovery / single-dword decryption differs from the block cipher")
 
     # wrappers
-    wrappers = [("wow_mpq::builder::ArchiveBuilder::encrypt_data", "encrypt_block"), ("wow_mpq::archive::decrypt_file_data", "decrypt_block"),
+    # (the encrypting wrapper is the builder's method, or the crate function it delegates to since the in-place modifier shares it)
+    enc_w = "wow_mpq::builder::encrypt_file_data" if mpq.fns.get("wow_mpq::builder::encrypt_file_data") is not None else "wow_mpq::builder::ArchiveBuilder::encrypt_data"
+    wrappers = [(enc_w, "encrypt_block"), ("wow_mpq::archive::decrypt_file_data", "decrypt_block"),
                 ("wow_mpq::tables::common::decrypt_table_data", "decrypt_block")]
     shapes = {}
     for path, kern in wrappers:
